@@ -23,7 +23,7 @@ LEVEL = "model_checking"
 ASSUMPTIONS = ["selectors symbolic, class generation concrete per leaf (executed natively)", "harness component templates built on public base classes"]
 OUTSIDE = ["with_context_key variants of the model-fitting workflow", "third-party factories"]
 KINDS = ["operation", "probe", "data-source", "payload-source", "data-sink", "payload-sink", "slice-operation", "slice-probe", "sweep-source", "sweep-operation", "sweep-probe",
-         "context-processor", "rename", "delete", "template", "io-subclass-source", "io-subclass-sink", "sliced-then-probed-pipeline", "io-dual-role"]
+         "context-processor", "rename", "delete", "template", "io-subclass-source", "io-subclass-sink", "sliced-then-probed-pipeline", "io-dual-role", "slice-of-sweep-probe"]
 KEYS = ("a", "b", "out")
 
 
@@ -250,6 +250,15 @@ def _mk(kind: str, ti: int, to: int, mask: int, parent_first: bool):
         node = _pipeline_node_factory({"processor": second, "parameters": {}}, lib.QUIET)
         i = second.input_data_type()
         E.update(inp=i, out=i, keys=[], adapter_of=second, ad_in=i, ad_out=i, pnames=["tag", "mode"] if second is Snk2 else ["tag"])
+    elif kind == "slice-of-sweep-probe":
+        # nested wrapping: a slicer around a class the sweep factory generated
+        from semantiva.data_processors.parametric_sweep_factory import ParametricSweepFactory, SequenceSpec
+
+        SW = ParametricSweepFactory.create(element=Pr, element_kind="DataProbe", collection_output=None, vars={"t": SequenceSpec([1, 2])}, parametric_expressions={"q": "t"})
+        S = make_slicer(SW, lib.IntColl)
+        node = _pipeline_node_factory({"processor": S, "context_key": "ck"}, lib.QUIET)
+        _ = type(node.processor).get_metadata()  # must be computable (the generated classes are ordinary components)
+        E.update(keys=sorted(type(node).get_created_keys()), mirror_only=True, proc=S)
     elif kind == "io-dual-role":
         # whichever role the framework gives a class that is both a source and a sink, node and wrapped adapter must agree
         node = _pipeline_node_factory({"processor": Store, "parameters": {}}, lib.QUIET)
@@ -291,6 +300,7 @@ def _sibling(kind: str) -> None:
         "context-processor": {"processor": lib.CpSum, "parameters": {}}, "rename": {"processor": "rename:x:y"}, "delete": {"processor": "delete:x"}, "template": {"processor": 'template:"{x}":y'},
         "io-subclass-source": {"processor": lib.SrcD, "parameters": {}}, "io-subclass-sink": {"processor": lib.Snk, "parameters": {}},
         "sliced-then-probed-pipeline": {"processor": make_slicer(lib.OpAddDef, lib.IntColl), "parameters": {}}, "io-dual-role": {"processor": lib.SrcD, "parameters": {}},
+        "slice-of-sweep-probe": {"processor": make_slicer(lib.PrVal, lib.IntColl), "context_key": "k2"},
     }
     _pipeline_node_factory(cfgs[kind], lib.QUIET)
 
@@ -298,14 +308,18 @@ def _sibling(kind: str) -> None:
 def scenario(kind: str, ti: int, to: int, mask: int, parent_first: bool, later_sibling: bool = False):
     from semantiva.contracts.expectations import validate_component
 
-    node, E = _mk(kind, ti, to, mask, parent_first)
+    try:
+        node, E = _mk(kind, ti, to, mask, parent_first)
+    except Exception as e:  # noqa: BLE001
+        return Fail("C16.P1:%s:generated-class-unusable:%s" % (kind, type(e).__name__), "building the node (or reading the metadata of the class generated for it) raised %r" % (e,))
     if later_sibling:
         _sibling(kind)  # the classes of `node` must still satisfy the catalogue after another node of the kind was generated
     ncls = type(node)
     pcls = type(node.processor)
     # ---- P1 mirroring
     if E.get("mirror_only"):
-        ni, no, pi, po = ncls.input_data_type(), ncls.output_data_type(), pcls.input_data_type(), pcls.output_data_type()
+        ni, no, pi = ncls.input_data_type(), ncls.output_data_type(), pcls.input_data_type()
+        po = pcls.output_data_type() if hasattr(pcls, "output_data_type") else ni  # probes have no output type: data passes through
         if ni is not pi:
             return Fail("C16.P1:%s:node-input-vs-wrapped" % kind, "node declares input %s, the processor it wraps declares %s" % (getattr(ni, "__name__", ni), getattr(pi, "__name__", pi)))
         if no is not po and not (pi is not None and no is ni):  # sinks pass their input type through
@@ -362,7 +376,7 @@ def _replay(kind, a):
 def obligations(tier: str) -> List[Ob]:
     return [
         Ob("C16.P", _make, _replay, params=list(KINDS), budget=600,
-           bound="19 wrapping paths (incl. a class that is both source and sink); whether a second, different node of the same kind is generated before the catalogue is consulted (flag); input and output type from a 3-type lattice, created-key set as a 3-bit mask, wrapping-order flag (subclass before/after parent) - all symbolic selectors; every leaf builds real nodes through the real factories",
+           bound="20 wrapping paths (incl. a class that is both source and sink, and slicers around sweep-generated classes); whether a second, different node of the same kind is generated before the catalogue is consulted (flag); input and output type from a 3-type lattice, created-key set as a 3-bit mask, wrapping-order flag (subclass before/after parent) - all symbolic selectors; every leaf builds real nodes through the real factories",
            targets=["semantiva/pipeline/nodes/_pipeline_node_factory.py:_pipeline_node_factory", "semantiva/data_processors/io_operation_factory.py:_IOOperationFactory.create_data_operation", "semantiva/data_processors/data_slicer_factory.py:_SlicingDataProcessorFactory.create", "semantiva/data_processors/parametric_sweep_factory.py:ParametricSweepFactory.create", "semantiva/context_processors/factory.py:_context_renamer_factory", "semantiva/contracts/expectations.py:validate_component"], stubs=["str"]),
     ]
 
